@@ -8,6 +8,7 @@ def find(ctx, oblig, diag):
     if "v2_header" in oblig or "undecided" in oblig: cases += [["sigv2", p] for p in PATHS]
     if "v4_presigned" in oblig or "undecided" in oblig: cases += [["sigv4", "presigned", p] for p in PATHS]
     if "v4_header" in oblig or "undecided" in oblig:
+        cases += [["sigv4-scope"]]
         cases += [["sigv4-body", m, "/bkt/key", b, mode] for m in ("DELETE", "PUT") for b in ("x", "hello world") for mode in ("signed", "empty-hash")]
         cases += [["sigv4", "header", p] for p in PATHS] + [["sigv4-search"]]
     for c in cases:
